@@ -1,6 +1,9 @@
 import ShroudVerif.Model.Helpers
 import ShroudVerif.Lemmas.Helpers
 import ShroudVerif.Gen.Helpers
+import ShroudVerif.Model.FModule
+import ShroudVerif.Lemmas.FModule
+import ShroudVerif.Gen.FModule
 /-!
 # C05  Every accepted input yields wrapper sources that compile and link
 
@@ -332,3 +335,90 @@ example : (writeHeaderSk ⟨true, true, false, false, 0⟩ ⟨[], [], [3], [], f
 example : ifDepth 0 ([.blank, .ifOpen 0, .externOpen, .endif] ++ [.blank, .ifOpen 0, .externClose]) = some 1 := by decide
 
 end Shroud.Helpers
+
+/-! ## 4. Fortran USE / IMPORT closure (`update_f_module`, `update_f_module_line`, `sort_module_info`) -/
+namespace Shroud.FModule
+open Shroud.Gen.FModule
+open Shroud.Helpers (sortNat mem_sortNat)
+
+/-- **exact content**: after any sequence of `update_f_module` / `update_f_module_line` / `set_f_module` calls a module's
+    ONLY set holds exactly what was there before plus everything some call asked for. -/
+theorem fmodule_exact (imp : Nat) (st : St) (us : List Upd) (k x : Nat) :
+    x ∈ symsOf (runUpds imp st us).mods k ↔ x ∈ symsOf st.mods k ∨ ∃ u ∈ us, u.asks imp k x :=
+  mem_runUpds imp us st k x
+
+/-- **monotone**: no symbol already required for a module is ever dropped by a later call. -/
+theorem fmodule_update_monotone (imp : Nat) (st : St) (us : List Upd) (k x : Nat)
+    (h : x ∈ symsOf st.mods k) : x ∈ symsOf (runUpds imp st us).mods k :=
+  (mem_runUpds imp us st k x).2 (Or.inl h)
+
+/-- **complete**: every symbol any call asks for is in the final ONLY set of its module. -/
+theorem fmodule_update_complete (imp : Nat) (st : St) (us : List Upd) (u : Upd) (hu : u ∈ us) (k x : Nat)
+    (h : u.asks imp k x) : x ∈ symsOf (runUpds imp st us).mods k :=
+  (mem_runUpds imp us st k x).2 (Or.inr ⟨u, hu, h⟩)
+
+/-- **order independent as a set**: two call sequences with the same calls (any order, any repetition) give the same
+    ONLY set for every module. -/
+theorem fmodule_update_order_independent (imp : Nat) (st : St) (us us' : List Upd)
+    (hsame : ∀ u, u ∈ us ↔ u ∈ us') (k x : Nat) :
+    x ∈ symsOf (runUpds imp st us).mods k ↔ x ∈ symsOf (runUpds imp st us').mods k := by
+  rw [mem_runUpds, mem_runUpds]
+  constructor
+  · rintro (h | ⟨u, hu, h⟩)
+    · exact Or.inl h
+    · exact Or.inr ⟨u, (hsame u).1 hu, h⟩
+  · rintro (h | ⟨u, hu, h⟩)
+    · exact Or.inl h
+    · exact Or.inr ⟨u, (hsame u).2 hu, h⟩
+
+/-- non-vacuity: two argument blocks of different kinds, in both orders -/
+example : symsOf (runUpds 99 ⟨[], []⟩ [.dict [(0, [3])], .line [(0, [5])]]).mods 0 = [3, 5] := by decide
+example : symsOf (runUpds 99 ⟨[], []⟩ [.line [(0, [5])], .dict [(0, [3])]]).mods 0 = [5, 3] := by decide
+
+/-- **the USE lines cover the bookkeeping**: every required symbol of every module other than the one being written is
+    listed in that module's `use ..., only :` line. -/
+theorem use_lines_cover (st : St) (self m x : Nat) (hx : x ∈ symsOf st.mods m) (hm : m ≠ self) :
+    ∃ ss, (m, some ss) ∈ (sortModuleInfo st self).1 ∧ x ∈ ss := by
+  have hlook : ∃ l, st.mods.lookup m = some l := by
+    unfold symsOf at hx
+    cases h : st.mods.lookup m with
+    | none => simp [h] at hx
+    | some l => exact ⟨l, rfl⟩
+  obtain ⟨l, hl⟩ := hlook
+  have hk : m ∈ sortNat (st.mods.map Prod.fst) :=
+    (mem_sortNat _ _).2 (Shroud.Helpers.lookup_some_mem_keys hl)
+  have hne : (symsOf st.mods m).isEmpty = false := by
+    cases hs : symsOf st.mods m with
+    | nil => simp [hs] at hx
+    | cons a b => rfl
+  refine ⟨sortNat (symsOf st.mods m), ?_, (mem_sortNat _ _).2 hx⟩
+  simp only [sortModuleInfo, List.mem_filterMap]
+  exact ⟨m, hk, by simp [hm, hne]⟩
+
+/-- As coded, an empty symbol dict means `use m` (everything).  A later request for one symbol turns that into an ONLY
+    clause: the module-wide use is narrowed.  (Not reachable from the current tables: no f_module entry has an empty list.) -/
+theorem only_clause_can_narrow :
+    (sortModuleInfo (runUpds 99 ⟨[], []⟩ [.dict [(0, [])]]) 7).1 = [(0, none)] ∧
+    (sortModuleInfo (runUpds 99 ⟨[], []⟩ [.dict [(0, [])], .dict [(0, [4])]]) 7).1 = [(0, some [4])] := by decide
+
+theorem coveredB_sound (emitter : List Nat) (rows : List (Nat × Nat × List Nat × List Nat × List Nat))
+    (h : coveredB emitter rows = true) :
+    ∀ r ∈ rows, ∀ s ∈ r.2.2.1, s ∈ r.2.2.2.1 ∨ s ∈ r.2.2.2.2 ∨ (r.2.1 = 1 ∧ s ∈ emitter) := by
+  intro r hr s hs
+  simp only [coveredB, List.all_eq_true] at h
+  have := h r hr s hs
+  simp only [Bool.or_eq_true, Bool.and_eq_true, List.contains_iff_mem, beq_iff_eq] at this
+  rcases this with (h1 | h1) | h1
+  · exact Or.inl h1
+  · exact Or.inr (Or.inl h1)
+  · exact Or.inr (Or.inr h1)
+
+/-- **table theorem (regenerated data)**: every iso_c_binding symbol written literally in a declaration template of a
+    statement entry (`f_arg_decl` / `f_result_decl` of c_ entries, `arg_decl` of f_ entries), and the kind of `{f_type}` in
+    an explicit interface declaration, is supplied by the entry's own `f_module` or `f_module_line`; for f_ entries the
+    symbols the emitter adds itself (literal `set_f_module` calls) also count. -/
+theorem fmodule_decl_covered :
+    ∀ r ∈ declRows, ∀ s ∈ r.2.2.1, s ∈ r.2.2.2.1 ∨ s ∈ r.2.2.2.2 ∨ (r.2.1 = 1 ∧ s ∈ emitterAdds) :=
+  coveredB_sound _ _ (by decide +kernel)
+
+end Shroud.FModule
